@@ -18,7 +18,26 @@ def get_machine(cls_name, mach, tracer):
     if key not in _M:
         import skoolkit.simulator as sm
         import skoolkit.cmiosimulator as cm
-        cls = {'Simulator': sm.Simulator, 'CMIOSimulator': cm.CMIOSimulator}[cls_name]
+        if cls_name == 'CMIOSimulator-rec':
+            # the contended simulator with contend() replaced by a recorder that returns a fresh delay >= 0: the closures'
+            # own effects are what is examined; the contention arithmetic itself is C19's subject
+            from symx import sym_int
+
+            class Rec(cm.CMIOSimulator):
+                ncalls = 0
+
+                def _rec(self, t, timings):
+                    Rec.ncalls += 1
+                    return sym_int('delay%d' % Rec.ncalls, 0, 6 * len(timings))
+
+                def contend_48k(self, t, timings):
+                    return self._rec(t, timings)
+
+                def contend_128k(self, t, timings):
+                    return self._rec(t, timings)
+            cls = Rec
+        else:
+            cls = {'Simulator': sm.Simulator, 'CMIOSimulator': cm.CMIOSimulator}[cls_name]
         _M[key] = sh.Machine(cls, mach, sh.Tracer() if tracer else None)
     return _M[key]
 
@@ -105,7 +124,7 @@ def run_real(cls_name, slot, regs, mem, machine='48K', inputs=(), tracer=False, 
     """run the real (unpatched) simulator class on a concrete state -> (regs, memory list, events)"""
     import skoolkit.simulator as sm
     import skoolkit.cmiosimulator as cm
-    cls = {'Simulator': sm.Simulator, 'CMIOSimulator': cm.CMIOSimulator}[cls_name]
+    cls = {'Simulator': sm.Simulator, 'CMIOSimulator': cm.CMIOSimulator, 'CMIOSimulator-rec': cm.CMIOSimulator}[cls_name]
     memory = mem_list(mem, default)
     m = sh.MACHINES[machine]
     cfg = {'frame_duration': m['frame'], 'int_active': m['int_active']}
